@@ -209,3 +209,164 @@ def token_set_of(fn, operand, depth=0):
             continue
         out = (out or set()) | got
     return out
+
+
+# ------------------------------------------------------------------------------------------
+# string lists / keyword table
+
+
+def str_list_of(fn, operand, depth=0):
+    """list of string constants an operand denotes (array / slice / promoted array of &str), or None"""
+    if depth > 6:
+        return None
+    c = operand.get("const")
+    if c is not None:
+        if "str" in c:
+            return [c["str"]]
+        if "promoted" in c:
+            owner = fn.promoted_of or fn
+            ps = owner.promoteds()
+            if c["promoted"] < len(ps):
+                return str_list_of(ps[c["promoted"]], {"copy": {"l": 0, "p": []}}, depth + 1)
+        return None
+    out = None
+    for d, p in origins(fn, operand):
+        got = None
+        if d[0] == "agg":
+            st = fn.stmts(d[1])[d[2]]
+            a = st["rv"]["agg"]
+            if isinstance(a, dict) and "array" in a:
+                got = []
+                for o in st["rv"]["ops"]:
+                    s = str_list_of(fn, o, depth + 1)
+                    if s is None:
+                        return None
+                    got.extend(s)
+        elif d[0] == "const" and isinstance(d[1], str):
+            got = [d[1]]
+        elif d[0] == "promoted":
+            owner = fn.promoted_of or fn
+            ps = owner.promoteds()
+            if d[1] < len(ps):
+                got = str_list_of(ps[d[1]], {"copy": {"l": 0, "p": []}}, depth + 1)
+        elif d[0] == "call":
+            t = fn.term(d[1])
+            name = t["callee"].get("name") if "indirect" not in t["callee"] else None
+            if name in ("as_ref", "iter", "into_iter", "cloned", "copied", "deref", "as_slice") and t["args"]:
+                got = str_list_of(fn, t["args"][0], depth + 1)
+        if got is None:
+            continue
+        out = (out or []) + got
+    return out
+
+
+def keyword_table(F):
+    """(pairs, problems): the (spelling, kind) pairs inserted into the lexer's KEYWORDS map, read off its initialiser.
+    Recognised construction forms: insert(lit, Kind); alias(Kind, &[lits]); extend([(lit, Kind), ..]);
+    extend([lits].iter().map(|s| (*s, Kind))).  Anything else touching the map is reported."""
+    init = None
+    for p, fn in F.fns.items():
+        if "KEYWORDS" in p and p.endswith("__static_ref_initialize"):
+            init = fn
+    if init is None:
+        return None, ["the KEYWORDS initialiser was not found"]
+    pairs = []
+    problems = []
+    map_l = None
+    for bi, t in init.calls():
+        if (callee_def(t) or "").startswith("std::collections::HashMap") and t["callee"].get("name") in ("with_capacity", "new"):
+            map_l = t["dest"]["l"]
+    if map_l is None:
+        return None, ["the map under construction was not found"]
+
+    def is_map_ref(fn, operand):
+        pl = op_place(operand)
+        if pl is None:
+            return False
+        for d in fn.defs().get(pl["l"], []):
+            if d[0] == "stmt" and "ref" in d[3]["rv"] and d[3]["rv"]["ref"]["l"] == map_l:
+                return True
+        return False
+
+    alias_closures = {}
+    for bi, si, s in init.assigns():
+        a = s["rv"].get("agg")
+        if isinstance(a, dict) and "closure" in a and any(is_map_ref(init, o) for o in s["rv"]["ops"]):
+            alias_closures[a["closure"]] = s["pl"]["l"]
+    for bi, t in init.calls():
+        cal = t["callee"]
+        if "indirect" in cal:
+            continue
+        name = cal.get("name")
+        d = cal["def"]
+        if d.startswith("std::collections::HashMap") and t["args"] and is_map_ref(init, t["args"][0]):
+            if name == "insert":
+                ks = str_list_of(init, t["args"][1])
+                kinds = token_set_of(init, t["args"][2])
+                if ks and kinds and len(kinds) == 1:
+                    pairs.append((ks[0], next(iter(kinds))))
+                else:
+                    problems.append("insert with a non-literal key or kind at line %s" % t["line"])
+            elif name in ("with_capacity", "new"):
+                pass
+            else:
+                problems.append("unrecognised operation %s on the keyword map at line %s" % (d, t["line"]))
+        elif d == "std::iter::Extend::extend" and t["args"] and is_map_ref(init, t["args"][0]):
+            src = t["args"][1]
+            handled = False
+            for dd, pp in origins(init, src):
+                if dd[0] == "agg":
+                    st = init.stmts(dd[1])[dd[2]]
+                    a = st["rv"]["agg"]
+                    if isinstance(a, dict) and "array" in a:
+                        for o in st["rv"]["ops"]:
+                            for d3, p3 in origins(init, o):
+                                if d3[0] == "agg" and init.stmts(d3[1])[d3[2]]["rv"]["agg"] == "tuple":
+                                    ops = init.stmts(d3[1])[d3[2]]["rv"]["ops"]
+                                    ks = str_list_of(init, ops[0])
+                                    kinds = token_set_of(init, ops[1])
+                                    if ks and kinds and len(kinds) == 1:
+                                        pairs.append((ks[0], next(iter(kinds))))
+                                        handled = True
+                                    else:
+                                        problems.append("extend with a non-literal pair at line %s" % t["line"])
+                elif dd[0] == "call" and init.term(dd[1])["callee"].get("name") == "map":
+                    mt = init.term(dd[1])
+                    ks = str_list_of(init, mt["args"][0])
+                    cl = init.local_ty(op_local(mt["args"][1])).peel_refs() if op_local(mt["args"][1]) is not None else None
+                    cf = F.fn(cl.d.get("closure", "")) if cl is not None and cl.kind() == "closure" else None
+                    kinds = set()
+                    if cf is not None:
+                        for b2, s2, st2 in cf.assigns():
+                            a2 = st2["rv"].get("agg")
+                            if isinstance(a2, dict) and a2.get("adt", "").endswith("TokenType"):
+                                kinds.add(a2["variant"])
+                    if ks and len(kinds) == 1:
+                        k = next(iter(kinds))
+                        pairs.extend((s_, k) for s_ in ks)
+                        handled = True
+                    else:
+                        problems.append("extend(.. map ..) form not recognised at line %s" % t["line"])
+            if not handled:
+                problems.append("extend form not recognised at line %s" % t["line"])
+        elif (cal.get("resolved") or d) in alias_closures or d in alias_closures:
+            tup = t["args"][1]
+            ok = False
+            for dd, pp in origins(init, tup):
+                if dd[0] == "agg" and init.stmts(dd[1])[dd[2]]["rv"]["agg"] == "tuple":
+                    ops = init.stmts(dd[1])[dd[2]]["rv"]["ops"]
+                    kinds = token_set_of(init, ops[0])
+                    ks = str_list_of(init, ops[1])
+                    if ks and kinds and len(kinds) == 1:
+                        k = next(iter(kinds))
+                        pairs.extend((s_, k) for s_ in ks)
+                        ok = True
+            if not ok:
+                problems.append("alias(..) call with non-literal arguments at line %s" % t["line"])
+    # the alias closure inserts every name with the given kind: names.iter().cloned().zip(repeat(token)) -> extend
+    for cp in alias_closures:
+        cf = F.fn(cp)
+        names = [t["callee"].get("name") for bi, t in cf.calls() if "indirect" not in t["callee"]]
+        if not {"extend", "zip", "repeat"} <= set(names):
+            problems.append("the alias closure does not insert names.zip(repeat(kind))")
+    return pairs, problems
